@@ -34,7 +34,7 @@ def run_check(prop: str, tier: str, seed: int) -> int:
         rep.extra["repo_digest"] = prog.digest()
         rep.extra["modules_parsed"] = sorted(prog.modules)
         mod.run(prog, rep, tier)
-        if tier == "thorough" and hasattr(mod, "selftest"):
+        if tier == "thorough":
             from .selftest import run_selftest
 
             selftest = run_selftest(prop, mod, rep, seed)
